@@ -5,7 +5,8 @@
 // image after exactly in Rat.
 //
 // Streams
-//   real   : PoissonLogLikelihoodWithLinearModelForMeanAndProjData + ProjMatrixByBinUsingRayTracing, Poisson data,
+//   real   : PoissonLogLikelihoodWithLinearModelForMeanAndProjData + ProjMatrixByBinUsingRayTracing, geometries with span 1 / 3,
+//            view mashing 1 / 2, non-TOF / TOF (15 TOF bins mashed to 3 or 5), Poisson data,
 //            additive on/off, normalisation on/off, (subset) sensitivities, no prior / quadratic / RDP prior x additive /
 //            multiplicative MAP model, relative-change clamps, inter-update / inter-iteration filters (a harness-defined
 //            DataProcessor that records what it is given), every number of subsets the library accepts, start subset,
@@ -39,7 +40,17 @@
 //                  from the lifted image - anything else is an ORACLE-FAIL.  Switching the option ON for the resumed run
 //                  of a reconstruction made with it off is another configuration and judged only when set_up has nothing
 //                  to lift.
-//   refusal      : set_up refuses numbers of subsets that are not balanced
+//   refusal      : set_up refuses numbers of subsets that are not balanced (every number 1..views+1; operation `bal` for the model)
+//   post-filter  : run B has the post-filter of the configuration: called once, at sub-iteration num_subiterations, with the last
+//                  iterate of the stepwise run (which has none); all other saved iterates untouched; restarts (k < N) reproduce
+//                  the filtered last iterate (operation `post` for the model)
+//   side branches: run E with report_objective_function_values_interval > 0 and write_update_image: saved iterates bitwise those
+//                  of run B; update images written for every sub-iteration, = the model's `updateImage` (operation `uimg`), and
+//                  image_k = image_{k-1} * limited update (bitwise)
+//   param. files : the users' path: OSMAPOSLReconstruction(parameter file) + no-argument reconstruct(): from initial estimate
+//                  0 / 1 (run P vs in-memory run M) and as restart from every saved image (initial estimate := file, start at
+//                  subiteration number := k+1) = bitwise the in-memory path (operation `init` for the model)
+//   TOF sens     : KNOWN-CANDIDATE em-formula:tof-subset-sensitivity-by-symmetries-of-non-tof-projector (see known_tof_sens_finding)
 // Usage: c07_osmaposl <seed> <quick|thorough> <opsfile> <implfile>
 #include "stir_fixtures.h"
 #include "common.h"
@@ -1979,7 +1990,7 @@ main(int argc, char** argv)
 
   run_restart_witness();
 
-  const int ngeo = thorough ? 72 : 8;
+  const int ngeo = thorough ? 28 : 8; // (thorough: 28 geometries x 4 data sets x all legal subset numbers x 3 variants, all with restarts)
   int case_no = 0;
   for (int gi = 0; gi < ngeo; ++gi)
     {
